@@ -391,6 +391,14 @@ class Act(object):
                     if not parts or parts[0] not in ("", "framer"):
                         parts = fparts + parts  # prepend fparts framer inodes
 
+            if parts and parts[0] == 'framer':  # relative forms need their name parts
+                if (len(parts) < 2 or
+                        (len(parts) >= 3 and parts[2] in ('frame', 'actor') and len(parts) < 4) or
+                        (len(parts) >= 5 and parts[2] == 'frame' and parts[4] == 'actor' and len(parts) < 6)):
+                    raise excepting.ResolveError("ResolveError: Incomplete relative"
+                                                 " pathname.", ipath, self,
+                                                 self.human, self.count)
+
             if parts and parts[0]:  # not absolute so do relative substitutions
                 if parts[0] == 'framer':  #  framer relative addressing
                     if parts[1] == 'me': # current framer
